@@ -33,13 +33,26 @@ def saleAmountInt (supply reserve : Int) (crr : Nat) (want : Int) : Option Int :
 
 /-! ### Exact certificates for the float branch
 
-  `saleReturn v R c a = R·(1 − (1 − a/v)^(100/c))`.  With `x = 1 − r/R` the claim `r ≤ true value < r + 1`
-  is `(1 − (r+1)/R)^c < (1 − a/v)^100 ≤ (1 − r/R)^c`, i.e. (clearing denominators, all factors non-negative)
+  Each of the four functions is `S·|1 − x^e|` for a ratio `x` of integers and a rational exponent `e = 100/c` or `c/100`.
+  "The claimed result `r` is within `δ` pips of the truncated real value" — `lo ≤ f < hi` with `lo = r − δ`, `hi = r + 1 + δ` —
+  is written with natural powers of integers only (raise to the power `c` resp. `100`, clear the denominators), so it is
+  decided by exact big-integer arithmetic.  Every base that is raised to a power is checked to be non-negative first (an even
+  power of a negative base would compare the wrong way): that is what the guards `lo ≤ R`, `0 ≤ v + hi` … are for; outside the
+  guard the corresponding real inequality is decided by the sign alone.
 
-      (R − r − 1)^c · v^100 <  (v − a)^100 · R^c  ≤ (R − r)^c · v^100      (exact truncation)
-
-  A *tolerance* `δ ≥ 0` (in pips of the result) relaxes both sides: `r − δ` and `r + 1 + δ`.  All powers are natural
-  powers of integers, so the predicate is decidable by big-integer arithmetic. -/
+  *saleReturn* `f = R·(1 − (1 − a/v)^(100/c))`, `0 ≤ a ≤ v`:
+      `lo ≤ f`  ⇔  `(R − lo)/R ≥ ((v−a)/v)^(100/c)`  ⇔  `lo ≤ R ∧ (v−a)^100·R^c ≤ (R−lo)^c·v^100`      (true anyway if `lo ≤ 0`)
+      `f < hi`  ⇔  `(R − hi)/R < ((v−a)/v)^(100/c)`  ⇔  `R < hi ∨ (R−hi)^c·v^100 < (v−a)^100·R^c`
+  *purchaseReturn* `f = v·((1 + d/R)^(c/100) − 1)`, `0 ≤ d`:
+      `lo ≤ f`  ⇔  `lo ≤ 0 ∨ (v+lo)^100·R^c ≤ (R+d)^c·v^100`
+      `f < hi`  ⇔  `0 ≤ v + hi ∧ (R+d)^c·v^100 < (v+hi)^100·R^c`
+  *purchaseAmount* `f = R·((1 + w/v)^(100/c) − 1)`, `0 ≤ w`:
+      `lo ≤ f`  ⇔  `lo ≤ 0 ∨ (R+lo)^c·v^100 ≤ (v+w)^100·R^c`
+      `f < hi`  ⇔  `0 ≤ R + hi ∧ (v+w)^100·R^c < (R+hi)^c·v^100`
+  *saleAmount* `f = v·(1 − (1 − w/R)^(c/100))`, `0 ≤ w ≤ R`:
+      `lo ≤ f`  ⇔  `lo ≤ 0 ∨ (lo ≤ v ∧ (R−w)^c·v^100 ≤ (v−lo)^100·R^c)`
+      `f < hi`  ⇔  `v < hi ∨ (v−hi)^100·R^c < (R−w)^c·v^100`
+  All four require `0 < v`, `0 < R`, `0 < c` and the amount inside the stated range (`bancorEvalQ` answers `domain` otherwise). -/
 
 def ipow (b : Int) (n : Nat) : Int := b ^ n
 
@@ -48,37 +61,85 @@ def saleReturnCert (v R : Int) (c : Nat) (a r δ : Int) : Bool :=
   let lo := r - δ          -- claimed lower bound on the true value
   let hi := r + 1 + δ      -- claimed strict upper bound
   let t := ipow (v - a) 100 * ipow R c
-  -- true ≥ lo  ⇔  (1 − lo/R)^c ≥ (1−a/v)^100   (trivially true when lo ≤ 0)
   (decide (lo ≤ 0) || (decide (lo ≤ R) && decide (t ≤ ipow (R - lo) c * ipow v 100)))
-  -- true < hi  ⇔  (1 − hi/R)^c < (1−a/v)^100   (trivially true when hi > R)
-  && (decide (hi > R) || decide (ipow (R - hi) c * ipow v 100 < t))
+  && (decide (R < hi) || decide (ipow (R - hi) c * ipow v 100 < t))
 
-/-- `purchaseReturn v R c d = v·((1 + d/R)^(c/100) − 1)`: `r ≤ true < r+1` ⇔ `(v+r)^100·R^c ≤ (R+d)^c·v^100 < (v+r+1)^100·R^c`. -/
+/-- `r` is within `δ` pips of `⌊v·((1 + d/R)^(c/100) − 1)⌋`.  Requires `0 < v`, `0 < R`, `0 ≤ d`. -/
 def purchaseReturnCert (v R : Int) (c : Nat) (d r δ : Int) : Bool :=
   let lo := r - δ
   let hi := r + 1 + δ
   let t := ipow (R + d) c * ipow v 100
   (decide (lo ≤ 0) || decide (ipow (v + lo) 100 * ipow R c ≤ t))
-  && decide (t < ipow (v + hi) 100 * ipow R c)
+  && (decide (0 ≤ v + hi) && decide (t < ipow (v + hi) 100 * ipow R c))
 
-/-- `purchaseAmount v R c w = R·(((w+v)/v)^(100/c) − 1)`: `r ≤ true < r+1` ⇔ `(R+r)^c·v^100 ≤ (w+v)^100·R^c < (R+r+1)^c·v^100`. -/
+/-- `r` is within `δ` pips of `⌊R·(((w+v)/v)^(100/c) − 1)⌋`.  Requires `0 < v`, `0 < R`, `0 ≤ w`. -/
 def purchaseAmountCert (v R : Int) (c : Nat) (w r δ : Int) : Bool :=
   let lo := r - δ
   let hi := r + 1 + δ
   let t := ipow (w + v) 100 * ipow R c
   (decide (lo ≤ 0) || decide (ipow (R + lo) c * ipow v 100 ≤ t))
-  && decide (t < ipow (R + hi) c * ipow v 100)
+  && (decide (0 ≤ R + hi) && decide (t < ipow (R + hi) c * ipow v 100))
 
-/-- `saleAmount v R c w = v·(1 − ((R−w)/R)^(c/100))`: `r ≤ true < r+1` ⇔ `(v−r−1)^100·R^c < (R−w)^c·v^100 ≤ (v−r)^100·R^c`. -/
+/-- `r` is within `δ` pips of `⌊v·(1 − ((R−w)/R)^(c/100))⌋`.  Requires `0 < v`, `0 < R`, `0 ≤ w ≤ R`. -/
 def saleAmountCert (v R : Int) (c : Nat) (w r δ : Int) : Bool :=
   let lo := r - δ
   let hi := r + 1 + δ
   let t := ipow (R - w) c * ipow v 100
   (decide (lo ≤ 0) || (decide (lo ≤ v) && decide (t ≤ ipow (v - lo) 100 * ipow R c)))
-  && (decide (hi > v) || decide (ipow (v - hi) 100 * ipow R c < t))
+  && (decide (v < hi) || decide (ipow (v - hi) 100 * ipow R c < t))
 
-/-- Tolerance granted to the 100-bit float pipeline: 2⁻⁷⁰ relative to the larger operand magnitude, at least 1 pip
-    (fixed once; never adjusted at run time). -/
+/-! ### The tolerance granted to the 100-bit float pipeline (fixed here once; never adjusted at run time)
+
+  `δ = result·2^-k₁ + scale·2^-k₂ + 1` pips.  The relative part is dominated by the exponent: Go passes `100/float64(crr)` resp.
+  `float64(crr)/100` (53 bits) to `math.Pow`, so `x^e` is really `x^(e(1+ε))`, `|ε| ≤ 2^-53`, a relative error of
+  `ε·e·|ln x|` of the power (`|ln x| ≤ 76` for amounts up to 10^33).  The absolute part is the 100-bit mantissa: the inputs are
+  rounded to 100 bits (supplies/reserves above 2^100 ≈ 1.27·10^30 pip are not exact) and `1 ± tiny` loses `tiny` below 2^-100.
+  For `saleAmount` the base `(R−w)/R` is raised to `c/100 < 1`, which is ill-conditioned near 0: the rounding of `R − w`
+  (2^-100·R) is amplified by `R/(R−w)`, hence the scale `v·R/(R−w)`.
+
+  Measured against the exact floor of the real formula (`harness bancor -tier measure -seed 11 -n 420000`: 1 028 239 evaluations,
+  701 225 results inside the domain compared with the exact floor (big-integer arithmetic); 46.8 % equal
+  to the floor).  Maximum of `|go − floor|`:
+      saleReturn      result·2^-53.02  resp.  R·2^-97.7          purchaseReturn  result·2^-47.8  resp.  v·2^-99.0
+      purchaseAmount  result·2^-43.88  resp.  R·2^-96.3          saleAmount      result·2^-53.2  resp.  (v·R/(R−w))·2^-99.75
+  (relative part: over results whose error exceeds the absolute part; absolute part: over results below 2^40 pip).
+  Each constant below is the measured maximum times 1000 (≈ 2^10), rounded up to a power of two.  With these constants
+  1 026 879 evaluations (`-tier thorough -seed 21`) were all accepted by the certificates. -/
+
+def pow2 (k : Nat) : Int := (2 : Int) ^ k
+
+/-- saleReturn: measured ≤ result·2^-53.02 resp. R·2^-97.7; granted result·2^-43 + R·2^-87 + 1. -/
+def saleReturnTol (R r : Int) : Int := max r 0 / pow2 43 + R / pow2 87 + 1
+
+/-- purchaseReturn: measured ≤ result·2^-47.8 resp. v·2^-99.0; granted result·2^-37 + v·2^-89 + 1. -/
+def purchaseReturnTol (v r : Int) : Int := max r 0 / pow2 37 + v / pow2 89 + 1
+
+/-- purchaseAmount: measured ≤ result·2^-43.88 resp. R·2^-96.3; granted result·2^-33 + R·2^-86 + 1. -/
+def purchaseAmountTol (R r : Int) : Int := max r 0 / pow2 33 + R / pow2 86 + 1
+
+/-- saleAmount: measured ≤ result·2^-53.2 resp. (v·R/(R−w))·2^-99.75; granted result·2^-43 + (v·R/(R−w))·2^-89 + 1. -/
+def saleAmountTol (v R w r : Int) : Int := max r 0 / pow2 43 + (v * R / max (R - w) 1) / pow2 89 + 1
+
+/-- (kept for older callers) 2⁻⁷⁰ relative to the larger operand magnitude, at least 1 pip. -/
 def bancorTol (scale : Int) : Int := scale / 1180591620717411303424 + 1
+
+/-! ### Direct monitors (decidable forms of the C12 clauses, evaluated on the results of the real code) -/
+
+/-- Results never decrease when the amount grows (exact, no tolerance). -/
+def bancorMonoOk (a a' r r' : Int) : Bool := decide (a ≤ a' → r ≤ r')
+
+/-- A sale never returns more than the reserve and nothing is negative (exact, no tolerance). -/
+def bancorRangeOk (isSaleReturn : Bool) (R r : Int) : Bool := decide (0 ≤ r) && (!isSaleReturn || decide (r ≤ R))
+
+/-- Buy `r` coins for `d`, sell them in the updated coin `(v+r, R+d)` for `s`: `s ≤ d` up to the tolerances of the two
+    conversions, the purchase tolerance converted into reserve units by the bound of `roundTrip_purchaseReturn_saleReturn`:
+    `(s − δ' − d)·(v + r) ≤ 100·δ·R`. -/
+def bancorRoundTripOk (v R d r s : Int) : Bool :=
+  decide ((s - saleReturnTol (R + d) s - d) * (v + r) ≤ 100 * purchaseReturnTol v r * R)
+
+/-- Buy exactly `w` coins for `p`, sell them in the updated coin `(v+w, R+p)` for `s`: `s ≤ p + δ + δ'`
+    (`roundTrip_purchaseAmount_saleReturn`). -/
+def bancorRoundTripAmountOk (R p s : Int) : Bool :=
+  decide (s ≤ p + purchaseAmountTol R p + saleReturnTol (R + p) s)
 
 end Minter
